@@ -1,0 +1,84 @@
+//go:build verif
+
+package jet
+
+import (
+	"reflect"
+	"sync"
+)
+
+// Simulation hooks, compiled only with the "verif" build tag. Every hook is a
+// no-op until a deterministic simulator installs callbacks in VerifHooks, so a
+// binary built with the tag but without a simulator behaves like the shipped
+// code.
+
+const verifHooked = true
+
+// VerifHooks are the callbacks a simulator may install.
+var VerifHooks struct {
+	// Yield is called immediately before jet touches state shared between
+	// goroutines (never while one of jet's locks is held).
+	Yield func(site string)
+	// SwapRuntime receives the Runtime taken from the real pool and returns
+	// the one Execute must use (fresh is a constructor for a new one).
+	SwapRuntime func(got *Runtime, fresh func() *Runtime) *Runtime
+	// ReleaseRuntime is called when Execute gives its Runtime back.
+	ReleaseRuntime func(st *Runtime)
+	// SwapRanger / ReleaseRanger are the same for the pooled rangers; pool
+	// identifies which of the ranger pools is involved.
+	SwapRanger    func(pool *sync.Pool, got Ranger, fresh func() Ranger) Ranger
+	ReleaseRanger func(pool *sync.Pool, r Ranger)
+}
+
+func verifYield(site string) {
+	if f := VerifHooks.Yield; f != nil {
+		f(site)
+	}
+}
+
+func verifSwapRuntime(st *Runtime) *Runtime {
+	if f := VerifHooks.SwapRuntime; f != nil {
+		return f(st, func() *Runtime { return pool_State.New().(*Runtime) })
+	}
+	return st
+}
+
+func verifReleaseRuntime(st *Runtime) {
+	if f := VerifHooks.ReleaseRuntime; f != nil {
+		f(st)
+	}
+}
+
+func verifSwapRanger(pool *sync.Pool, pr pooledRanger) pooledRanger {
+	if f := VerifHooks.SwapRanger; f != nil {
+		return f(pool, pr, func() Ranger { return pool.New().(Ranger) }).(pooledRanger)
+	}
+	return pr
+}
+
+func verifReleaseRanger(pool *sync.Pool, pr pooledRanger) {
+	if f := VerifHooks.ReleaseRanger; f != nil {
+		f(pool, pr)
+	}
+}
+
+// VerifResetStructFieldCache empties the process-wide struct field cache so
+// that each simulated run explores its first-population interleavings.
+func VerifResetStructFieldCache() {
+	cachedStructsMutex.Lock()
+	cachedStructsFieldIndex = map[reflect.Type]map[string][]int{}
+	cachedStructsMutex.Unlock()
+}
+
+// VerifRangerPoolName names a ranger pool for logs ("slice", "map", "chan").
+func VerifRangerPoolName(pool *sync.Pool) string {
+	switch pool {
+	case poolSliceRanger:
+		return "slice"
+	case poolsByKind[reflect.Map]:
+		return "map"
+	case poolsByKind[reflect.Chan]:
+		return "chan"
+	}
+	return "?"
+}
